@@ -8,7 +8,11 @@
 // switch on a value with constant-free or constant cases (no fallthrough, no break); for with init, condition and
 // post statement (no break / continue / return inside); return as the last statement of a path; expressions over
 // + - * / % & | ^ &^ << >> unary - ^ ! comparisons && || conversions between integer types, named constants
-// (folded by go/types), and calls of other translated loop-free functions.  Anything else is refused with
+// (folded by go/types), calls of other translated loop-free total functions, and math/bits.RotateLeft64 (by its
+// specification, MiniGo.go_rotl64).  A shift by a signed non-constant count (run-time panic when negative) makes the
+// function PARTIAL: its result is an option, None = the Go function panics; the test `0 <= count` is emitted in
+// front of the statement that holds the shift (under the left operand of an enclosing && / ||), and is accepted only
+// on straight-line paths (not inside a loop or a branch that falls through).  Anything else is refused with
 // file:line and the construct; the function is then omitted from the output and the exit status is 1.
 //
 // Types and constant values come from go/types over the compiler's export data (go list -export), i.e. exactly
@@ -53,6 +57,14 @@ var table = []spec{
 	{Dir: "pkg/mathext", Name: "pextGeneric", Fuel: 65},
 	{Dir: "pkg/protocol", Name: "maxFragmentSizeInternal"},
 	{Dir: "pkg/protocol", Name: "maxPaddingSize"},
+	{Dir: "pkg/protocol", Name: "isSessionProtocol"},
+	{Dir: "pkg/protocol", Name: "isLowEntropyProtocol"},
+	{Dir: "pkg/protocol", Name: "isDataProtocol"},
+	{Dir: "pkg/protocol", Name: "isAckProtocol"},
+	{Dir: "pkg/protocol", Name: "isDataAckProtocol"},
+	{Dir: "pkg/protocol", Name: "isValidLowEntropyRotation"},
+	{Dir: "pkg/protocol", Name: "lowBits"},
+	{Dir: "pkg/protocol", Name: "rotateLowEntropyMask"},
 }
 
 type pkgInfo struct {
@@ -156,7 +168,9 @@ type tr struct {
 	sp      spec
 	names   map[types.Object]string
 	used    map[string]int
-	option  bool // the function has loops: result is option
+	option  bool // the function has loops or can panic: result is option
+	partial bool // the function has an operation that can panic (None = panic)
+	guards  []string // conditions under which the expressions translated since the last takeGuards do not panic
 	results int
 	total   map[string]string // "pkgpath.Name<sfx>" -> coq name of already translated loop-free functions
 }
@@ -311,9 +325,19 @@ func (t *tr) expr(e ast.Expr) (string, error) {
 		if err != nil {
 			return "", err
 		}
+		ng := len(t.guards)
 		y, err := t.expr(e.Y)
 		if err != nil {
 			return "", err
+		}
+		if e.Op == token.LAND || e.Op == token.LOR {
+			for i := ng; i < len(t.guards); i++ { // the right operand is evaluated only if the left one does not decide
+				if e.Op == token.LAND {
+					t.guards[i] = "(orb (negb " + x + ") " + t.guards[i] + ")"
+				} else {
+					t.guards[i] = "(orb " + x + " " + t.guards[i] + ")"
+				}
+			}
 		}
 		switch e.Op {
 		case token.LAND:
@@ -386,7 +410,10 @@ func (t *tr) expr(e ast.Expr) (string, error) {
 			return "(go_andnot " + ty + " " + x + " " + y + ")", nil
 		case token.SHL, token.SHR:
 			if !t.isUnsignedOrConst(e.Y) {
-				return "", t.bad(e, "shift by a signed non-constant count")
+				if !t.partial {
+					return "", t.bad(e, "shift by a signed non-constant count")
+				}
+				t.guards = append(t.guards, "(Z.leb 0 "+y+")")
 			}
 			if e.Op == token.SHL {
 				return "(go_shl " + ty + " " + x + " " + y + ")", nil
@@ -441,6 +468,17 @@ func (t *tr) expr(e ast.Expr) (string, error) {
 			return "", t.bad(e, "call of %s", id.Name)
 		}
 		key := fo.Pkg().Path() + "." + fo.Name()
+		if key == "math/bits.RotateLeft64" && len(e.Args) == 2 {
+			x, err := t.expr(e.Args[0])
+			if err != nil {
+				return "", err
+			}
+			k, err := t.expr(e.Args[1])
+			if err != nil {
+				return "", err
+			}
+			return "(go_rotl64 " + x + " " + k + ")", nil
+		}
 		if inst, ok := t.p.info.Instances[id]; ok && inst.TypeArgs != nil {
 			for i := 0; i < inst.TypeArgs.Len(); i++ {
 				ta := inst.TypeArgs.At(i)
@@ -744,6 +782,30 @@ func (t *tr) simple(s ast.Stmt, ind string) (string, error) {
 	return "", t.bad(s, "statement %T", s)
 }
 
+// takeGuards returns (and forgets) the conjunction of the no-panic conditions collected since the last call; "" if none.
+// They can be tested only where the continuation is the function's own result (k == "").
+func (t *tr) takeGuards(k string, n ast.Node) (string, error) {
+	if len(t.guards) == 0 {
+		return "", nil
+	}
+	g := t.guards[0]
+	for _, x := range t.guards[1:] {
+		g = "(andb " + g + " " + x + ")"
+	}
+	t.guards = nil
+	if k != "" {
+		return "", t.bad(n, "operation that can panic inside a loop body or inside a branch that falls through")
+	}
+	return g, nil
+}
+
+func guarded(g, ind, inner string) string {
+	if g == "" {
+		return inner
+	}
+	return ind + "if " + g + " then\n" + inner + ind + "else None\n"
+}
+
 // seq translates a statement list followed by the final term k ("" = the list must end in a return).
 func (t *tr) seq(list []ast.Stmt, k string, ind string) (string, error) {
 	if len(list) == 0 {
@@ -769,7 +831,11 @@ func (t *tr) seq(list []ast.Stmt, k string, ind string) (string, error) {
 			}
 			vals = append(vals, v)
 		}
-		return ind + t.ret(vals) + "\n", nil
+		g, err := t.takeGuards(k, s)
+		if err != nil {
+			return "", err
+		}
+		return guarded(g, ind, ind+t.ret(vals)+"\n"), nil
 	case *ast.BlockStmt:
 		return t.seq(append(append([]ast.Stmt{}, s.List...), rest...), k, ind)
 	case *ast.IfStmt:
@@ -777,19 +843,31 @@ func (t *tr) seq(list []ast.Stmt, k string, ind string) (string, error) {
 		if err != nil {
 			return "", err
 		}
+		g1, err := t.takeGuards(k, s)
+		if err != nil {
+			return "", err
+		}
 		c, err := t.expr(s.Cond)
 		if err != nil {
 			return "", err
 		}
+		g2, err := t.takeGuards(k, s)
+		if err != nil {
+			return "", err
+		}
 		body, err := t.branch(c, s.Body.List, elseList(s), rest, k, ind, s)
-		return pre + body, err
+		return guarded(g1, ind, pre+guarded(g2, ind, body)), err
 	case *ast.SwitchStmt:
 		pre, err := t.simple(s.Init, ind)
 		if err != nil {
 			return "", err
 		}
+		g1, err := t.takeGuards(k, s)
+		if err != nil {
+			return "", err
+		}
 		body, err := t.switchStmt(s, rest, k, ind)
-		return pre + body, err
+		return guarded(g1, ind, pre+body), err
 	case *ast.ForStmt:
 		if s.Cond == nil {
 			return "", t.bad(s, "for without a condition")
@@ -798,6 +876,10 @@ func (t *tr) seq(list []ast.Stmt, k string, ind string) (string, error) {
 			return "", t.bad(s, "loop in a function registered without fuel")
 		}
 		pre, err := t.simple(s.Init, ind)
+		if err != nil {
+			return "", err
+		}
+		g1, err := t.takeGuards(k, s)
 		if err != nil {
 			return "", err
 		}
@@ -816,6 +898,10 @@ func (t *tr) seq(list []ast.Stmt, k string, ind string) (string, error) {
 		if err != nil {
 			return "", err
 		}
+		if len(t.guards) > 0 {
+			t.guards = nil
+			return "", t.bad(s.Cond, "operation that can panic in a loop condition")
+		}
 		b, err := t.seq(inner, t.tuple(vs), ind+"    ")
 		if err != nil {
 			return "", err
@@ -827,13 +913,13 @@ func (t *tr) seq(list []ast.Stmt, k string, ind string) (string, error) {
 		if !t.option {
 			return "", t.bad(s, "internal: loop in a function not marked option")
 		}
-		out := pre + ind + "match while " + fmt.Sprint(t.sp.Fuel) + "%nat\n" +
+		out := ind + "match while " + fmt.Sprint(t.sp.Fuel) + "%nat\n" +
 			ind + "  (fun " + t.pat(vs) + " => " + c + ")\n" +
 			ind + "  (fun " + t.pat(vs) + " =>\n" + b + ind + "  )\n" +
 			ind + "  " + t.tuple(vs) + " with\n" +
 			ind + "| None => None\n" +
 			ind + "| Some " + t.tuple(vs) + " =>\n" + k2 + ind + "end\n"
-		return out, nil
+		return guarded(g1, ind, pre+out), nil
 	case *ast.RangeStmt, *ast.ExprStmt, *ast.GoStmt, *ast.DeferStmt, *ast.BranchStmt, *ast.LabeledStmt, *ast.SelectStmt, *ast.SendStmt, *ast.TypeSwitchStmt:
 		return "", t.bad(s, "statement %T", s)
 	default:
@@ -841,8 +927,12 @@ func (t *tr) seq(list []ast.Stmt, k string, ind string) (string, error) {
 		if err != nil {
 			return "", err
 		}
+		g, err := t.takeGuards(k, s)
+		if err != nil {
+			return "", err
+		}
 		r, err := t.seq(rest, k, ind)
-		return pre + r, err
+		return guarded(g, ind, pre+r), err
 	}
 }
 
@@ -943,6 +1033,10 @@ func (t *tr) switchStmt(s *ast.SwitchStmt, rest []ast.Stmt, k string, ind string
 			conds = append(conds, "(Z.eqb "+tag+" "+x+")")
 		}
 	}
+	if len(t.guards) > 0 {
+		t.guards = nil
+		return "", t.bad(s, "operation that can panic in a switch tag or case expression")
+	}
 	c := conds[0]
 	for _, x := range conds[1:] {
 		c = "(orb " + c + " " + x + ")"
@@ -974,6 +1068,25 @@ func hasLoop(b *ast.BlockStmt) bool {
 	return found
 }
 
+// canPanic: the body holds a shift by a signed count that is not a constant (the only run-time panic the fragment admits).
+func (t *tr) canPanic(b *ast.BlockStmt) bool {
+	found := false
+	ast.Inspect(b, func(n ast.Node) bool {
+		switch n := n.(type) {
+		case *ast.BinaryExpr:
+			if (n.Op == token.SHL || n.Op == token.SHR) && !t.isUnsignedOrConst(n.Y) {
+				found = true
+			}
+		case *ast.AssignStmt:
+			if (n.Tok == token.SHL_ASSIGN || n.Tok == token.SHR_ASSIGN) && len(n.Rhs) == 1 && !t.isUnsignedOrConst(n.Rhs[0]) {
+				found = true
+			}
+		}
+		return true
+	})
+	return found
+}
+
 func translate(p *pkgInfo, sp spec, total map[string]string) (coqName, text string, isTotal bool, err error) {
 	var fd *ast.FuncDecl
 	for _, f := range p.files {
@@ -988,7 +1101,8 @@ func translate(p *pkgInfo, sp spec, total map[string]string) (coqName, text stri
 		return coqName, "", false, fmt.Errorf("%s: function %s not found (or has no body)", sp.Dir, sp.Name)
 	}
 	t := &tr{p: p, sp: sp, names: map[types.Object]string{}, used: map[string]int{}, total: total}
-	t.option = hasLoop(fd.Body)
+	t.partial = t.canPanic(fd.Body)
+	t.option = hasLoop(fd.Body) || t.partial
 	sig := p.info.Defs[fd.Name].(*types.Func).Type().(*types.Signature)
 	params := ""
 	for i := 0; i < sig.Params().Len(); i++ {
